@@ -26,6 +26,11 @@ def run(ctx):
   rule_dup(ctx)
   from . import c02
   ctx.borrow(c02.rule_release, "R-C10-DUP", lambda r: r.where.endswith("BatchDLOfDifferences"))
+  # the searches compare x-coordinates of p + q and p - q: the batched x-only additions must agree with Add on every mixture of special cases (shared with C11)
+  from . import c11
+  ctx.borrow(c11.rule_dispatch, "R-C10-ARITH", lambda r: r.where.endswith(("BatchAddX", "BatchAddSubtractX")))
+  ctx.borrow(c11.rule_formula, "R-C10-ARITH", lambda r: r.where.endswith(("BatchAddX", "BatchAddSubtractX")))
+  ctx.expect("R-C10-ARITH", 5, "dispatch and formulas of BatchAddX / BatchAddSubtractX")
   ctx.expect("R-C10-COVER", 4, "candidates, step, adjacency, reach")
   ctx.expect("R-C10-TABLE", 4, "table coverage + point sequence")
   ctx.expect("R-C10-CACHE", 2, "two cached searches")
